@@ -42,14 +42,13 @@ Fixpoint partition_plus (s : list Z) : list Z * list Z :=
   | c :: r => if c =? 43 then ([], r) else let '(a, b) := partition_plus r in (c :: a, b)
   end.
 
-(* the codec of the server; ProtoCodec and the harness' RawCodec both say 'proto' *)
-Definition codec_subtype : list Z := proto_subtype.
+(* `cs` = codec.__content_subtype__ of the server's codec ('proto' for ProtoCodec; any other codec has its own) *)
 
 (* not (base != GRPC_CONTENT_TYPE or (sub or 'proto') != codec.__content_subtype__) *)
-Definition content_type_ok (v : list Z) : bool :=
+Definition content_type_ok (cs : list Z) (v : list Z) : bool :=
   let '(base, sub) := partition_plus v in
   let sub' := match sub with [] => proto_subtype | _ => sub end in
-  zlist_eqb base grpc_content_type && zlist_eqb sub' codec_subtype.
+  zlist_eqb base grpc_content_type && zlist_eqb sub' cs.
 
 (* _TIMEOUT_RE = ^([0-9]{1,8})([HMSmun])\Z ; the unit letters are the keys of Facts.units *)
 Definition is_digit (c : Z) : bool := in_range 48 57 c.
@@ -100,13 +99,13 @@ Definition k_decode_metadata : list Z :=
   [100; 101; 99; 111; 100; 101; 95; 109; 101; 116; 97; 100; 97; 116; 97].
 
 (* does the guard of an early abort fire?  `known` = the keys of the server's mapping *)
-Definition guard_fires (known : list (list Z)) (hs : list header) (g : rguard) : bool :=
+Definition guard_fires (cs : list Z) (known : list (list Z)) (hs : list header) (g : rguard) : bool :=
   match g with
   | GetNe k v => match hget k hs with Some x => negb (zlist_eqb x v) | None => true end
   | IsNone k => match hget k hs with Some _ => false | None => true end
   | CtMismatch =>
       match hget [99; 111; 110; 116; 101; 110; 116; 45; 116; 121; 112; 101] hs with
-      | Some v => negb (content_type_ok v)
+      | Some v => negb (content_type_ok cs v)
       | None => true       (* unreachable behind the IsNone guard; None.partition would be an AttributeError *)
       end
   | UnknownPath => match hget k_path hs with Some p => negb (mem_str p known) | None => true end
@@ -120,20 +119,20 @@ Definition guard_fires (known : list (list Z)) (hs : list header) (g : rguard) :
 Definition abort_entry := (rguard * Z * option Z * option (list Z))%type.
 
 (* the first guard that fires decides *)
-Fixpoint first_abort (known : list (list Z)) (hs : list header) (tbl : list abort_entry) (i : nat)
+Fixpoint first_abort (cs : list Z) (known : list (list Z)) (hs : list header) (tbl : list abort_entry) (i : nat)
   : option (nat * abort_entry) :=
   match tbl with
   | [] => None
-  | e :: r => if guard_fires known hs (fst (fst (fst e))) then Some (i, e)
-              else first_abort known hs r (S i)
+  | e :: r => if guard_fires cs known hs (fst (fst (fst e))) then Some (i, e)
+              else first_abort cs known hs r (S i)
   end.
 
 Inductive verdict :=
 | VAbort (i : nat) (h2status : Z) (gstatus : option Z) (gmsg : option (list Z))
 | VAccept (t : tclass).
 
-Definition validate (known : list (list Z)) (hs : list header) : verdict :=
-  match first_abort known hs abort_table 0 with
+Definition validate (cs : list Z) (known : list (list Z)) (hs : list header) : verdict :=
+  match first_abort cs known hs abort_table 0 with
   | Some (i, (_, h, gs, m)) => VAbort i h gs m
   | None => VAccept (timeout_class hs)
   end.
@@ -368,6 +367,7 @@ Record env := mkE {
   e_ext : extk;
   e_ext_at : option nat;  (* the event (or, for ENone, the deadline) arrives during this Sleep; otherwise when
                              the handler waits *)
+  e_codec : list Z;       (* codec.__content_subtype__ of the server's codec *)
   e_paused0 : bool        (* the transport is paused already when the request arrives (resumed by the environment
                              once the handler coroutine has ended, or at once when it is never called) *)
 }.
@@ -552,7 +552,7 @@ Record result := mkR {
 (* request_handler from the first statement to `finally` *)
 Definition run_call (known : list (list Z)) (hs : list header) (e : env) (p : prog) : result :=
   let s0 := init_state e in
-  match validate known hs with
+  match validate (e_codec e) known hs with
   | VAbort i h gs m => mkR (VAbort i h gs m) (abort (hst s0) h gs m) [] KNotRun s0 s0
   | VAccept TExpired =>
       (* DeadlineWrapper.start marks the wrapper cancelled and raises TimeoutError before the handler is
@@ -642,17 +642,17 @@ Definition k_status : list Z := [58; 115; 116; 97; 116; 117; 115].
 Definition k_ctype : list Z := [99; 111; 110; 116; 101; 110; 116; 45; 116; 121; 112; 101].
 Definition k_gstatus : list Z := [103; 114; 112; 99; 45; 115; 116; 97; 116; 117; 115].
 Definition k_gmsg : list Z := [103; 114; 112; 99; 45; 109; 101; 115; 115; 97; 103; 101].
-Definition content_type_value : list Z := grpc_content_type ++ [43] ++ codec_subtype.
+Definition content_type_value (cs : list Z) : list Z := grpc_content_type ++ [43] ++ cs.
 
 Definition render_tail (gs : option Z) (m : option (list Z)) : list header :=
   match gs with Some g => [(k_gstatus, dec g)] | None => [] end ++
   match m with Some x => [(k_gmsg, x)] | None => [] end.
 
 (* None for frames that are not HEADERS *)
-Definition render (f : frame) : option (list header * bool) :=
+Definition render (cs : list Z) (f : frame) : option (list header * bool) :=
   match f with
   | FHeaders st ct gs m e =>
-      Some ((k_status, dec st) :: (if ct then [(k_ctype, content_type_value)] else []) ++ render_tail gs m, e)
+      Some ((k_status, dec st) :: (if ct then [(k_ctype, content_type_value cs)] else []) ++ render_tail gs m, e)
   | FTrailers g m => Some (render_tail (Some g) m, true)
   | _ => None
   end.
